@@ -49,7 +49,7 @@ CLAIMS = {
         "All 288 patch spec sites (MonkeyPatchSpec / jnp_binding_specs, resolved through nested factories, lambdas, class constants and subclasses) are mapped to the wrapper definition "
         "installed while tracing; every call form the library signature binds (positional index, keyword name, omitted optional, *args/**kwargs) must bind on the wrapper, every wrapper "
         "parameter's incoming value must reach a read (or be documented as ignored by the library / listed inert), and every keyword passed to <prim>.bind must be a parameter of the plugin's "
-        "abstract_eval; substitutes that canonicalise positional arguments by hand must map each library positional slot to the same parameter. The library side comes from the installed jax/flax/equinox, so the check follows library upgrades.",
+        "abstract_eval; substitutes that canonicalise positional arguments by hand must map each library positional slot to the same parameter; transformation rules that re-bind a plugin primitive must forward every parameter. The library side comes from the installed jax/flax/equinox, so the check follows library upgrades.",
         "Not decided: whether an accepted argument is lowered with the same meaning. 124 call-form gaps and 5 silently ignored arguments are genuine and listed in known_findings.json "
         "(each confirmed against the real wrappers by triage/c19_confirm.py). Trusted: inspect.signature of third-party callables; Python's argument binding rules as modelled in sa/sigs.py.",
         "DESIGN.md §3 C19",
@@ -79,10 +79,10 @@ CLAIMS = {
         "writer/reader agreement on primitive parameters (jax bind() keyword table vs. keys read along the eqn/params dataflow of each lowering) + must-pass-through / dominance on the checked dispatcher",
         "For each of the ~230 (plugin, parameter) pairs of plugins registered for JAX primitives, the parameter JAX binds must be read by lower() or by a package function the equation/params are handed to, "
         "or be listed inert/derivable with a reason; every key a tracing substitute binds on a plugin-owned primitive must be read by lower(); lower_equation_with_plugin must pass input assertion, dispatch and "
-        "output finalisation in order on every path, and plugins must not dispatch sub-jaxpr equations privately. A dropped semantic parameter means two different JAX programs export to the same model - "
+        "output finalisation in order on every path, and plugins must not dispatch sub-jaxpr equations privately; non-commutative binary lowerings must feed eqn.invars[0]/[1] to the operator's first/second operand (taint analysis); a parameter that is read must be used; pattern matchers that walk through Reshape/Expand must consult a shape before choosing an axis; jax.numpy-level binaries must not force one operand into the other's dtype; a promoted dtype must not be overridden by one operand's own dtype. A dropped semantic parameter means two different JAX programs export to the same model - "
         "a necessary-condition breach visible for every plugin, not only the sampled ones.",
         "Decides parameter consumption and dispatch discipline ONLY; the numerical correctness of every lowering (operator choice, attribute values, rounding, clamping, integer division) is not decided and "
-        "cannot be by this family. Trusted: AST scan of bind() sites in the installed jax, the inert/derivable tables (one reason per entry). Two genuine hits were repaired (lax.round 29bea5a, conv batch groups f5d6c8d).",
+        "cannot be by this family. Trusted: AST scan of bind() sites in the installed jax, the inert/derivable tables (one reason per entry). Three genuine hits were repaired (lax.round 29bea5a, conv batch groups f5d6c8d, LpNormalization matcher f5d1361); seven mixed-dtype hits (R-C01g) are listed in known_findings.json.",
         "DESIGN.md §3 C01",
     ),
     "C09": (
@@ -97,7 +97,7 @@ CLAIMS = {
     "C18": (
         "must-pass-through analysis on the CFG of the comparison helper + cast-provenance check on comparison operands + memoisation / module-state lint on the validation session over the call graph",
         "In _run_allclose every path to a match verdict must pass the output-count comparison and, per output, a shape comparison and a value comparison whose failure branch returns (False, ...) and whose operands are "
-        "the reference and the model output; no operand may be cast to the other's dtype without a same-kind test on the path (the defect that made a model off by 0.9 pass); allclose must run under the scoped x64 "
+        "the reference and the model output (hand-written `(x > y).any()` tests are NaN-blind and rejected); no operand may be cast to the other's dtype without a same-kind test on the path (the defect that made a model off by 0.9 pass); allclose must run under the scoped x64 "
         "context; _build_ort_inputs must feed or raise for every session input; every InferenceSession reachable from the helpers must be built from the path parameter of the current call in a function without a cache decorator and not kept in module state (a memoised session answers for a stale file). These are the False branches no pinned test drives.",
         "Not decided: ONNX Runtime execution, tolerance arithmetic. The narrowing defect found by R-C18b was repaired (fix commit 91c6437).",
         "DESIGN.md §3 C18",
@@ -145,7 +145,7 @@ CLAIMS = {
         "All ~1800 places where lowering or optimizer code names a value (`_outputs=[...]`, ir.Value(name=...)) are classified as fresh / existing / derived / parameter / interface / literal; a literal name at a site that can run "
         "more than once per graph scope is a duplicate definition. Lowering contexts may only be created by the three scope constructors, and make_subgraph_context must wrap BOTH name allocators with a parent-derived prefix on "
         "every path (uniqueness at any nesting depth, which example-based regression tests cannot settle). Initializer lists are written only through function-mode aware entry points; collected functions are attached with "
-        "their domain imports; slices cut from a multi-output node's result tuple must coincide with the sections of its declared output-name list (symbolic prefix sums) and be paired with the collection that generated the section.",
+        "their domain imports; nested contexts must receive copies of the parent's value-bearing scope tables; slices cut from a multi-output node's result tuple must coincide with the sections of its declared output-name list (symbolic prefix sums) and be paired with the collection that generated the section.",
         "Not decided: onnx.checker / strict shape inference / ORT load results, def-before-use of every value, call-node arity. Names derived from node names rely on the name-fix pass running first.",
         "DESIGN.md §3 C03",
     ),
@@ -153,7 +153,7 @@ CLAIMS = {
         "def-use across the cond branch extraction and If emission, dominance of rejection guards, data-provenance of Loop entry inputs",
         "JAX stores cond branches as (false, true): element 1 must reach then_branch and element 0 else_branch of the emitted If; reverse scans, inconsistent arity / scanned extents, missing jaxprs and N-way switches must raise "
         "before anything is emitted (the reverse rejection must be a test of `reverse` alone, or the reached helper must read it); bodies go through the checked dispatcher; while_loop's initial Loop condition must be the cond jaxpr evaluated on the initial state (the structural necessary condition for zero-iteration "
-        "loops, a path no pinned test executes); scan / fori trip counts must derive from the length / trip_count parameter or the scanned extent - for scan on every definition that reaches the Loop (CFG reaching definitions).",
+        "loops, a path no pinned test executes); scan / fori trip counts must derive from the length / trip_count parameter or the scanned extent - for scan on every definition that reaches the Loop (CFG reaching definitions); fori_loop must bind trip_count = upper - lower with the caller's lower and offset the body index by lower.",
         "Not decided: actual trip counts, carried-value wiring, stacked outputs, zero-trip results - they need execution.",
         "DESIGN.md §3 C06",
     ),
